@@ -100,6 +100,13 @@ reg('C14',
     'types, parent order, names, actuator indices, dof maps, init_q and initial pose agree with the document. Sampling, not proof.',
     'MuJoCo must itself compile every injected document; eval_shape(init) stands for jitted init', 'DESIGN.md section 4 C14')
 
+reg('C10',
+    'property-based testing (Hypothesis scene generator): differential against NumPy closed-form distances (point-plane, point-point, point-segment, segment-segment)',
+    'No counter-example among generated scenes (plane at any pose + 2-3 free bodies with sphere/capsule geoms at local offsets/rotations, per-geom elasticity through both custom paths) x '
+    'link poses with constructed gaps in [-0.3, 0.7]: every reported row has the closed-form signed distance (1e-8 for plane/sphere pairs; for capsule pairs within the bound implied by '
+    'mjx\'s regularisation constants and never below the true minimum), the normal from geom1 to geom2, the owning links (world = -1), the mean elasticity, and the reported pair set is the expected one. Sampling, not proof.',
+    'closed forms written from scratch in NumPy; mjx (third party) regularisation constants enter the capsule tolerances', 'DESIGN.md section 4 C10')
+
 PENDING = {}
 
 
